@@ -52,6 +52,16 @@ Theorem C19_ref_compound_partial : forall o b ps,
 Proof. exact ref_compound. Qed.
 Print Assumptions C19_ref_compound_partial.
 
+(* `&` under a LIST of outer selectors, mixed with inner selectors without `&`: when every `&` inner selector is a
+   single compound without selector pseudos whose appended compound is left alone by the unification with the empty
+   compound (clean_ref), the nested list is the outer-major product of the resolved selectors (PARTIAL: `&` not in
+   the middle of a complex selector, not inside pseudo arguments) *)
+Theorem C19_ref_product_partial : forall outers inners,
+  (forall i, In i inners -> hb_sel i = false \/ clean_ref outers i) ->
+  nest_set outers inners outers = Ok (flat_map (fun o => map (resolved o) inners) outers).
+Proof. exact nest_ref_product. Qed.
+Print Assumptions C19_ref_product_partial.
+
 (* ... a type suffix (`&-x`) is glued to the last class of an outer compound ending in a class ... *)
 Theorem C19_ref_suffix_name : forall e cls x suf,
   plain_name suf = true -> elem_is_any suf = false ->
@@ -70,17 +80,27 @@ Theorem C19_ref_simple_added : forall co phs cls i ats ps,
 Proof. exact append_simple. Qed.
 Print Assumptions C19_ref_simple_added.
 
-(* F3: `*{&b{x:y}}` panics where Sass reports an error: the full statement is false of the faithful model *)
+(* `*{&b{x:y}}` (F3, fixed by dfe7d33): an error in the model as in Sass; and wherever the model refuses a suffix
+   the Sass reading refuses it too *)
+Theorem C19_suffix_error : model star_nest = MErr /\ spec_levels star_nest = SErr.
+Proof. exact star_suffix_error. Qed.
+Print Assumptions C19_suffix_error.
+
+Theorem C19_suffix_error_sound : forall c suf, glue_suffix c suf = Fail -> exists k, spec_glue c suf = SpErr k.
+Proof. exact glue_fail_is_spec_error. Qed.
+Print Assumptions C19_suffix_error_sound.
+
+(* the full statement; still false of the faithful model in the classes K2-K4 (see known_findings/C19.json) *)
 Definition C19_statement : Prop :=
   forall levels, match spec_levels levels with
                  | SNA => True
                  | SErr => exists t, model levels = MOut t -> False
                  | SOk s => model levels = MOut (match s with [] => None | _ => Some (fmt_sels false s) end)
                  end.
-Theorem C19_refuted_star_suffix :
-  model star_nest = MPanic /\ spec_levels star_nest = SErr /\ spec_class star_nest = 1%N.
-Proof. exact refuted_star. Qed.
-Print Assumptions C19_refuted_star_suffix.
+Theorem C19_refuted_host_parent :
+  model host_nest = MOut None /\ spec_levels host_nest <> SOk [] /\ spec_class host_nest = 2%N.
+Proof. exact refuted_host. Qed.
+Print Assumptions C19_refuted_host_parent.
 
 Example C19_hyps_sat :
   let o := Sel None (Comp (mkBase false (Some (str "a")) [] [] None []) []) in
